@@ -4,6 +4,8 @@
 package sim
 
 import (
+	"verif/harness/pbt"
+
 	"context"
 	"crypto/sha256"
 	"encoding/json"
@@ -152,8 +154,12 @@ func newHome() string {
 	return d
 }
 
-// Cleanup removes all temporary home directories created by this process.
+// Cleanup removes all temporary home directories created by this process (registered with pbt: runs at the end of
+// every Check; the directories are re-created on demand).
 func Cleanup() {
+	sharedHome.Lock()
+	sharedHome.dirs = map[int]string{}
+	sharedHome.Unlock()
 	homeMu.Lock()
 	defer homeMu.Unlock()
 	for _, d := range homeDirs {
@@ -162,9 +168,11 @@ func Cleanup() {
 	homeDirs = nil
 }
 
+func init() { pbt.RegisterCleanup(Cleanup) }
+
 var sharedHome struct {
 	sync.Mutex
-	dirs []string // one per replica slot
+	dirs map[int]string // one per replica slot, created on first use
 }
 
 // homeFor returns a per-process home directory for replica slot i (the file cache is content addressed, so
@@ -172,10 +180,15 @@ var sharedHome struct {
 func homeFor(slot int) string {
 	sharedHome.Lock()
 	defer sharedHome.Unlock()
-	for len(sharedHome.dirs) <= slot {
-		sharedHome.dirs = append(sharedHome.dirs, newHome())
+	if sharedHome.dirs == nil {
+		sharedHome.dirs = map[int]string{}
 	}
-	return sharedHome.dirs[slot]
+	d, ok := sharedHome.dirs[slot]
+	if !ok {
+		d = newHome()
+		sharedHome.dirs[slot] = d
+	}
+	return d
 }
 
 var compiledCache sync.Map // sha of raw wasm -> compiled
